@@ -271,4 +271,9 @@ def run(F, rep):
     from engines import rule_cursor_loops
     rule_cursor_loops(F, rep, 'C14.K1', lambda g: g.file.endswith(('/parser.cpp', '/xmlutils.cpp', '/xmlnode.cpp')), 25, 'the parser and its XML helpers')
 
+    # ------------------------------------------------------------------ H: the 1.x mode is decided per document (clause shared with C12)
+    if not getattr(rep, 'nested', False):
+        import c12
+        c12.rule_h1(F, rep, 'C14.H1', [st for st in c12.STATE if st[0] == 'Parser::ParserImpl'])
+
 
